@@ -388,7 +388,8 @@ func (h *hist) warmup() bool {
 	for _, e := range h.cl {
 		h.write(e, 10)
 	}
-	for k := 0; k < 50; k++ {
+	// wall-clock bound, not an iteration count: the machine may be busy
+	for deadline := time.Now().Add(10 * time.Second); time.Now().Before(deadline); {
 		h.pumpSettle(1)
 		h.accept(8)
 		done := true
@@ -412,7 +413,13 @@ func (h *hist) warmup() bool {
 	if h.c.scenario == "backlog" {
 		h.extra, h.xconn = h.newClient(49, "x0")
 		h.write(h.extra, 10)
-		h.pumpSettle(2)
+		for deadline := time.Now().Add(10 * time.Second); time.Now().Before(deadline); {
+			h.pumpSettle(1)
+			if un, _ := kcp.VerifListenerBacklog(h.l); un > 0 {
+				break
+			}
+			time.Sleep(time.Millisecond)
+		}
 		if un, _ := kcp.VerifListenerBacklog(h.l); un == 0 {
 			return false
 		}
@@ -455,6 +462,11 @@ func (h *hist) trafficStep() {
 // chPostProcessing (devBacklog requests): exercises the drop-and-recycle arm of the output
 // callback and Close with a full queue and a sender blocked in WriteTo.
 func (h *hist) fullQueues() {
+	// one more round trip so that each side has seen the other's (tuned) receive window
+	for _, e := range h.all() {
+		h.write(e, 10)
+	}
+	h.pumpSettle(4)
 	for i, e := range h.cl {
 		h.net.setStall(memAddr(fmt.Sprintf("c%d", i)), true)
 		h.step("stall+write " + e.name)
@@ -551,19 +563,29 @@ func (h *hist) readLoopExitCheck(i int) {
 		default:
 		}
 	}
-	deadline := time.Now().Add(200 * time.Millisecond)
-	for time.Now().Before(deadline) {
-		if conn.taken.Load()-before >= 1 && conn.blocked.Load() == 0 {
-			break
-		}
+	// phase 1: the loop, blocked in ReadFrom, gets the first datagram
+	deadline := time.Now().Add(2 * time.Second)
+	for conn.taken.Load()-before < 1 && time.Now().Before(deadline) {
 		time.Sleep(100 * time.Microsecond)
 	}
-	time.Sleep(300 * time.Microsecond)
-	took := conn.taken.Load() - before
 	h.o.Count("readloop-exit-check")
-	if took > 1 || conn.blocked.Load() > 0 {
-		h.viol("leak-readloop-after-close", fmt.Sprintf("client c%d was closed (transport open): its receive loop consumed %d datagrams after Close and is %s",
-			i, took, map[bool]string{true: "still reading", false: "gone"}[conn.blocked.Load() > 0]))
+	if conn.taken.Load()-before < 1 {
+		h.o.Count("readloop-exit-check:inconclusive") // nobody was reading (loop already gone) or starved
+	} else {
+		// phase 2: it must return now; a loop that goes on takes the 2nd and 3rd datagram at once
+		quiet := 0
+		deadline = time.Now().Add(2 * time.Second)
+		for time.Now().Before(deadline) && conn.taken.Load()-before < 2 && quiet < 20 {
+			if conn.blocked.Load() == 0 {
+				quiet++
+			} else {
+				quiet = 0
+			}
+			time.Sleep(200 * time.Microsecond)
+		}
+		if took := conn.taken.Load() - before; took > 1 {
+			h.viol("leak-readloop-after-close", fmt.Sprintf("client c%d was closed (transport open): its receive loop consumed %d datagrams after Close instead of returning at the first", i, took))
+		}
 	}
 	// empty the inbox so that nothing else is confused by the junk
 	for len(conn.inbox) > 0 {
@@ -701,9 +723,9 @@ func (h *hist) finalChecks(tier string) {
 		h.viol(kind, detail)
 	}
 	// --- goroutines
-	wait := 2 * time.Second
+	wait := 5 * time.Second
 	if tier == "thorough" {
-		wait = 5 * time.Second
+		wait = 10 * time.Second
 	}
 	if n, sum := waitNoGoroutines(goroutineBase, wait); n > goroutineBase {
 		kind := "leak-goroutine"
@@ -916,7 +938,7 @@ func Run(o *hx.Out, g *hx.Rng, tier string) {
 	saved := kcp.SystemTimedSched
 	defer func() { kcp.SystemTimedSched = saved }()
 	selfCheck(o)
-	nsyn, nhist := 60, 3*len(cryptKinds)+9
+	nsyn, nhist := 60, 6*len(cryptKinds)+12
 	budget := 45 * time.Second
 	if tier == "thorough" {
 		nsyn, nhist = 600, 40*len(cryptKinds)
